@@ -240,7 +240,11 @@ def pickling(ctx) -> None:
         params = [a.arg for a in new.args.args[1:]]
         fields = calls.namedtuple_fields(ci) or []
         sup = [c for c in core.calls_in(new) if isinstance(c.func, ast.Attribute) and c.func.attr == '__new__']
-        stored = len(sup[-1].args) - 1 if sup else None
+        stored = None
+        if sup:
+            # positional values after cls, plus keywords naming the remaining fields (each field once)
+            given = fields[:max(len(sup[-1].args) - 1, 0)] + [k.arg for k in sup[-1].keywords]
+            stored = len(given) if len(set(given)) == len(given) and all(g in fields for g in given) and len(sup[-1].args) - 1 <= len(fields) else len(sup[-1].args) - 1
         ctx.check(stored == len(fields), 'R-PICKLE', ci.ref, f'{ci.name}.__new__ stores {stored} values for fields {fields}', key=f'{ci.name}:fields', loc=f'{ci.module.relpath}:{new.lineno}')
         transforms = new.args.kwarg is not None or len(params) != len(fields)
         own = [m for m in ('__getnewargs__', '__getnewargs_ex__', '__reduce__') if m in ci.methods]
